@@ -56,6 +56,13 @@ pub assume_specification[ Duration::from_secs ](s: u64) -> (r: Duration)
     ensures dur_nanos(r) == s as int * 1_000_000_000;
 pub assume_specification[ Duration::from_millis ](ms: u64) -> (r: Duration)
     ensures dur_nanos(r) == ms as int * 1_000_000;
+/// Duration accessors (std: whole seconds, and the sub-second part in ns / ms)
+pub assume_specification[ Duration::as_secs ](d: &Duration) -> (r: u64)
+    ensures r as int == dur_nanos(*d) / 1_000_000_000;
+pub assume_specification[ Duration::subsec_nanos ](d: &Duration) -> (r: u32)
+    ensures r as int == dur_nanos(*d) % 1_000_000_000;
+pub assume_specification[ Duration::subsec_millis ](d: &Duration) -> (r: u32)
+    ensures r as int == (dur_nanos(*d) % 1_000_000_000) / 1_000_000;
 pub broadcast axiom fn axiom_dur_nonneg(d: Duration)
     ensures #[trigger] dur_nanos(d) >= 0;
 pub broadcast axiom fn axiom_instant_ext(a: Instant, b: Instant)
